@@ -13,7 +13,7 @@
 // inequality only: gaps between calls >= the wait, no call begun after MaxElapsedTime, early give-up only when the
 // context can have ended).  Nothing here asserts an upper bound on real elapsed time.
 //
-// outs: f<k> = the call fails (c<k>: with an error wrapping context.Canceled, d<k>: with its own time-out's DeadlineExceeded),
+// outs: f<k> = the call fails (u<k>: with an error value of an uncomparable type, c<k>: with an error wrapping context.Canceled, d<k>: with its own time-out's DeadlineExceeded),
 // s<k> = it succeeds, returning k messages; call i returns the messages with the UUIDs
 // "i.0" … and, when it fails, the error object e<i>.
 package main
@@ -38,7 +38,8 @@ import (
 type outcome struct {
 	ok   bool
 	nout int
-	kind byte // of a failing call: 0/'f' = a plain error, 'c' = an error wrapping context.Canceled, 'd' = the call's own
+	kind byte // of a failing call: 0/'f' = a plain error, 'u' = an error value of an uncomparable type (slice / struct with a map),
+	// 'c' = an error wrapping context.Canceled, 'd' = the call's own
 	// time-out (a context derived from the live message context) ran out: an error wrapping context.DeadlineExceeded
 }
 
@@ -87,7 +88,7 @@ func (c tcase) inputs() string {
 		k := "f"
 		if o.ok {
 			k = "s"
-		} else if o.kind == 'c' || o.kind == 'd' {
+		} else if o.kind == 'c' || o.kind == 'd' || o.kind == 'u' {
 			k = string(o.kind)
 		}
 		outs[i] = k + strconv.Itoa(o.nout)
@@ -161,6 +162,26 @@ func (r rec) obs() string {
 		hk = strings.Join(p, ",")
 	}
 	return fmt.Sprintf("n=%d hooks=%s res=%s/%s time=ok", r.n, hk, r.msgs, r.err)
+}
+
+// error values of uncomparable dynamic types, as validation libraries and home-made multi-errors return them
+type listErr []string
+
+func (e listErr) Error() string { return strings.Join(e, "; ") }
+
+type fieldErr struct {
+	call   string
+	fields map[string]string
+}
+
+func (e fieldErr) Error() string { return fmt.Sprintf("%s: %d invalid fields", e.call, len(e.fields)) }
+
+func comparableErr(e error) bool {
+	switch e.(type) {
+	case listErr, fieldErr:
+		return false
+	}
+	return true
 }
 
 // obsCtx is the message's context; it notes when the code under test first asks it for its deadline or its Done
@@ -241,6 +262,12 @@ func runScenario(c tcase) []rec {
 			switch o.kind {
 			case 'c': // the handler reports a cancellation of something of its own; the message context is alive
 				err = fmt.Errorf("e%d: %w", i, context.Canceled)
+			case 'u': // an error value of an uncomparable dynamic type (legal: `error` only asks for Error() string)
+				if c.mr%2 == 0 { // one type throughout a case: consecutive failures then carry values of the same dynamic type
+					err = listErr{"e" + strconv.Itoa(i), "second problem"}
+				} else {
+					err = fieldErr{call: "e" + strconv.Itoa(i), fields: map[string]string{"name": "empty"}}
+				}
 			case 'd': // the handler's own per-call time-out
 				cctx, ccancel := context.WithTimeout(f.ctx, time.Microsecond)
 				<-cctx.Done()
@@ -373,9 +400,18 @@ func runScenario(c tcase) []rec {
 					if err == nil {
 						r.err = "-"
 					} else {
-						for i, e := range f.errs {
-							if err == e {
-								r.err = "e" + strconv.Itoa(i)
+						switch v := err.(type) { // never `==` on values that may be uncomparable
+						case listErr:
+							if len(v) > 0 {
+								r.err = v[0]
+							}
+						case fieldErr:
+							r.err = v.call
+						default:
+							for i, e := range f.errs {
+								if comparableErr(e) && err == e {
+									r.err = "e" + strconv.Itoa(i)
+								}
 							}
 						}
 						if r.err == "?" {
@@ -497,7 +533,7 @@ func parseCase(line string) (tcase, error) {
 			c.logger = kv[1] == "1"
 		case "outs":
 			for _, o := range strings.Split(kv[1], ",") {
-				if len(o) < 2 || !strings.ContainsRune("fscd", rune(o[0])) {
+				if len(o) < 2 || !strings.ContainsRune("fscdu", rune(o[0])) {
 					return c, fmt.Errorf("outcome %q", o)
 				}
 				k, e := strconv.Atoi(o[1:])
@@ -709,6 +745,23 @@ func generate(a wh.Args) []tcase {
 			passes: 2 + i%2, group: "repass"})
 	}
 
+	// (2e) handler errors of uncomparable dynamic types (a slice-typed error list, a struct with a map field), with a Logger
+	// set and at least two failed retries: Retry only passes errors on, it must not compare, hash or otherwise inspect them
+	for mr := 2; mr <= 8; mr++ {
+		t := calls(mr)
+		for v := 0; v < 3; v++ {
+			if !thorough && (mr+v)%2 == 1 {
+				continue
+			}
+			outs := outsFor(t, []int{t, t - 1, 3}[v], nouts(rng))
+			for i := range outs {
+				outs[i].kind = "uuuf"[(i+v)%4]
+			}
+			cs = append(cs, tcase{mr: mr, init: []int64{0, 200 * us}[rng.Intn(2)], max: 1 * ms, mulP: 2, mulQ: 1, rfA: 0, rfB: 1,
+				hook: true, outs: outs, cancel: -1, sleepAt: -1, group: "errtype"})
+		}
+	}
+
 	// (3) back-off schedule: random configurations, intervals 0..3 ms, multipliers {1, 3/2, 2, 3}, rf {0, 1/2, 1}
 	nRand := 260
 	if thorough {
@@ -885,7 +938,7 @@ func main() {
 	cs := generate(a)
 	lrng := wh.NewRng(a.Seed ^ 0x5eed)
 	for i := range cs {
-		cs[i].logger = lrng.Intn(3) == 0
+		cs[i].logger = lrng.Intn(3) == 0 || cs[i].group == "errtype"
 	}
 	recs := make([][]rec, len(cs))
 	var wg sync.WaitGroup
